@@ -88,6 +88,7 @@ def run(ctx):
     r154_inverse_pairs(ctx, dists)
     r155_density_is_derivative(ctx, dists)
     r156_erf_inv_centres(ctx)
+    r157_draw_by_inversion(ctx, dists)
     # a sampler that leaves the declared support cannot follow the declared density: the range part of C14 (draws within the
     # sign / bound support, discrete uniform within [lo, hi]) is a necessary condition of "samples follow the density"
     from . import c14
@@ -329,3 +330,61 @@ def r156_erf_inv_centres(ctx):
                                 'the approximation is shifted on that interval (accuracy lost, erf_inv jumps at the boundary, cdf and inverse cdf no longer inverse to 1e-8)',
                                 module=mod, where='utils.erf_inv')
     ctx.floor('R15.6', 'rational pieces of erf_inv with a centre', n, 2)
+
+
+def r157_draw_by_inversion(ctx, dists):
+    """R15.7: where draw() is a closed form g(u) of ONE uniform u, the declared density f satisfies f(g(u)) * g'(u) == +1 or -1 identically
+    (change of variables; exact algebra with x**y = exp(y log x), exp / log laws, symbolic differentiation): the sampler draws from the
+    distribution that probability_density declares."""
+    import copy
+    from ..algebra import Translator, Rat, p_atom, p_const, Unsupported, ctor_field_defs, computing_returns, path_env, derivative, positive_ctor_params
+    prog = ctx.prog
+    ctx.rule('R15.7', 'samplers by inversion: probability_density(draw(u)) * d draw / du == +-1 identically, for every draw() that is a closed form of one uniform')
+    decided = 0
+    for c in dists:
+        dcf, pdf = prog.resolve(c, 'probability_density')
+        dcd, dr = prog.resolve(c, 'draw')
+        if pdf is None or dr is None or any(isinstance(x, (ast.While, ast.For)) for x in ast.walk(dr)):
+            continue
+        prs = computing_returns(pdf)
+        drs = computing_returns(dr)
+        if len(prs) != 1 or len(drs) != 1:
+            continue                                  # piecewise densities / samplers: one branch pairing per piece is not attempted
+        fdefs, params = ctor_field_defs(prog, c)
+        draws = set()
+
+        class U(ast.NodeTransformer):
+            def visit_Call(self, node):
+                t = unparse(node.func)
+                if t.endswith('.next_float') or t.endswith('._next_positive_float'):
+                    draws.add(unparse(node))
+                    return ast.copy_location(ast.Name(id='u__', ctx=ast.Load()), node)
+                return self.generic_visit(node)
+        fn2 = U().visit(copy.deepcopy(dr))
+        ast.fix_missing_locations(fn2)
+        ncalls = sum(1 for x in ast.walk(fn2) if isinstance(x, ast.Name) and x.id == 'u__')
+        r2s = computing_returns(fn2)
+        if len(r2s) != 1 or not draws or ncalls != 1:
+            continue
+        tr = Translator(prog, c, fdefs)
+        tr.set_ctor_params(params)
+        tr.positive = positive_ctor_params(prog, c)
+        tr.general_pow = True
+        u = Rat(p_atom('u'))
+        try:
+            g_ = tr.expr(r2s[0].value, path_env(tr, fn2, r2s[0], {'u__': u}, dcd.name), dcd.name)
+            f_ = tr.expr(prs[0].value, path_env(tr, pdf, prs[0], {pdf.args.args[1].arg: g_}, dcf.name), dcf.name)
+            from ..algebra import merge_exps
+            prod = merge_exps(tr, f_ * derivative(tr, g_, 'u'))
+            ok = prod.equals(Rat(p_const(1))) or prod.equals(Rat(p_const(-1)))
+        except Unsupported as e:
+            ctx.note(f'R15.7: {c}: density of the sampler not expressible in the algebra ({e}); not decided')
+            continue
+        ctx.examined()
+        decided += 1
+        ctx.ob('R15.7', f'{c}:draw', ok, sample=f'{c}: f(g(u)) g\'(u) with g = `{short(drs[0].value, 50)}` simplifies to {str(prod)[:50]}')
+        if not ok:
+            ctx.finding('R15.7', f'{c}.draw:inversion', dcd, drs[0],
+                        f'with g(u) = `{short(drs[0].value, 70)}` the product probability_density(g(u)) * g\'(u) simplifies to `{str(prod)[:140]}`, not to +-1: the sampler does not draw '
+                        f'from the distribution that probability_density of {c} declares', where=f'{dcd.name}.draw')
+    ctx.floor('R15.7', 'samplers by inversion decided', decided, 2)
